@@ -151,10 +151,8 @@ def query_prefixes(names):
 def write_lines(path, lines, rng=None):
     os.makedirs(os.path.dirname(path), exist_ok=True)
     text = '\n'.join(lines)
-    if lines and (rng is None or rng.random() < 0.8):
-        text += '\n'
-    if lines and lines[-1] == '' and not text.endswith('\n\n'):
-        text += '\n'            # a final empty line needs its own terminator to exist
+    if lines and (lines[-1] == '' or rng is None or rng.random() < 0.8):
+        text += '\n'           # the terminator of the last line is optional unless that line is empty
     with open(path, 'w', encoding='utf-8') as f:
         f.write(text)
 
@@ -584,18 +582,18 @@ def site_case(sv, wd, emptydir):
 
 
 def site_defaults():
-    """the built-in sections the site cases ask about, as printed by skool2html.py -r"""
-    return (default_sections('Game') + default_sections('Titles') + default_sections('Page:') + default_sections('Config')
-            + default_sections('Template:footer'))
-
-
-def reffile_case():
+    """the built-in ref file, as printed by skool2html.py -R"""
     out, err, code = call('skool2html', ['-R'])
-    if code not in (0, None):
+    if code not in (0, None) or not out.startswith('['):
         raise RuntimeError('skool2html -R failed: %r' % (code,))
     full = out.split('\n')
     if full and full[-1] == '':
         full.pop()
+    return full
+
+
+def reffile_case():
+    full = site_defaults()
     parts = []
     for p in ['Game', 'Page', 'Page:', 'Template:', 'Titles', 'MemoryMap:', 'Nope', 'Paths', 'Co', 'Index']:
         parts.append(dict(p=enc(p), out=encl(default_sections(p))))
